@@ -71,6 +71,11 @@ func runC16(c *Ctx) {
 	c16PathsRerooted(c)
 	c16WriterIndependent(c)
 	c16TablesInverse(c)
+	c16FilterAfterMap(c, "FILTER-AFTER-MAP")
+	c16BinaryBeforeBuiltin(c)
+	if q := c.P.Pkg("private/bufpkg/bufconfig"); q != nil {
+		c16SectionsKept(c, q)
+	}
 	c16HoistCountsAll(c)
 	{
 		// module-wide: the config constructors are called from the commands, the migration, the workspace and the generators
